@@ -479,40 +479,66 @@ impl std::ops::Mul<i32> for Glue {
 
 impl Glue {
     /// TeX.2021.1239
+    ///
+    /// `self` is the old value and `rhs` the glue that is added to it.
+    /// A zero stretch or shrink has no order: it never hides a non-zero component of lower order.
     pub fn wrapping_add(self, rhs: Glue) -> Self {
-        use std::cmp::Ordering::*;
+        let (stretch, stretch_order) = Glue::add_component(
+            (self.stretch, self.stretch_order),
+            (rhs.stretch, rhs.stretch_order),
+            |a, b| Some(a.wrapping_add(b)),
+        )
+        .expect("wrapping addition can't fail");
+        let (shrink, shrink_order) = Glue::add_component(
+            (self.shrink, self.shrink_order),
+            (rhs.shrink, rhs.shrink_order),
+            |a, b| Some(a.wrapping_add(b)),
+        )
+        .expect("wrapping addition can't fail");
         Glue {
             width: self.width.wrapping_add(rhs.width),
-            stretch: match self.stretch_order.cmp(&rhs.stretch_order) {
-                Less => rhs.stretch,
-                Equal => self.stretch.wrapping_add(rhs.stretch),
-                Greater => self.stretch,
-            },
-            stretch_order: self.stretch_order.max(rhs.stretch_order),
-            shrink: match self.shrink_order.cmp(&rhs.shrink_order) {
-                Less => rhs.shrink,
-                Equal => self.shrink.wrapping_add(rhs.shrink),
-                Greater => self.shrink,
-            },
-            shrink_order: self.shrink_order.max(rhs.shrink_order),
+            stretch,
+            stretch_order,
+            shrink,
+            shrink_order,
         }
     }
     pub fn checked_add(self, rhs: Glue) -> Option<Self> {
-        use std::cmp::Ordering::*;
+        let (stretch, stretch_order) = Glue::add_component(
+            (self.stretch, self.stretch_order),
+            (rhs.stretch, rhs.stretch_order),
+            Scaled::checked_add,
+        )?;
+        let (shrink, shrink_order) = Glue::add_component(
+            (self.shrink, self.shrink_order),
+            (rhs.shrink, rhs.shrink_order),
+            Scaled::checked_add,
+        )?;
         Some(Glue {
             width: self.width.checked_add(rhs.width)?,
-            stretch: match self.stretch_order.cmp(&rhs.stretch_order) {
-                Less => rhs.stretch,
-                Equal => self.stretch.checked_add(rhs.stretch)?,
-                Greater => self.stretch,
-            },
-            stretch_order: self.stretch_order.max(rhs.stretch_order),
-            shrink: match self.shrink_order.cmp(&rhs.shrink_order) {
-                Less => rhs.shrink,
-                Equal => self.shrink.checked_add(rhs.shrink)?,
-                Greater => self.shrink,
-            },
-            shrink_order: self.shrink_order.max(rhs.shrink_order),
+            stretch,
+            stretch_order,
+            shrink,
+            shrink_order,
+        })
+    }
+    /// Adds the stretch or shrink components of two glues, as in TeX.2021.1239.
+    fn add_component(
+        old: (Scaled, GlueOrder),
+        new: (Scaled, GlueOrder),
+        add: impl Fn(Scaled, Scaled) -> Option<Scaled>,
+    ) -> Option<(Scaled, GlueOrder)> {
+        let new_order = if new.0 == Scaled::ZERO {
+            GlueOrder::Normal
+        } else {
+            new.1
+        };
+        Some(if new_order == old.1 {
+            (add(old.0, new.0)?, new_order)
+        } else if new_order < old.1 && old.0 != Scaled::ZERO {
+            old
+        } else {
+            (new.0, new_order)
         })
     }
     pub fn checked_mul(self, rhs: i32) -> Option<Self> {
